@@ -131,6 +131,48 @@ def extract(config="default", repo=None, use_cache=True):
     return facts, meta
 
 
+FIXTURE = os.path.join(VERIF, "fixtures", "poscontrol")
+
+
+def extract_fixture():
+    """Facts of the positive-control crate (same driver, same flags)."""
+    ensure_driver()
+    os.makedirs(CACHE, exist_ok=True)
+    h = hashlib.sha256()
+    for rel in ("Cargo.toml", "src/lib.rs"):
+        with open(os.path.join(FIXTURE, rel), "rb") as fh:
+            h.update(fh.read())
+    with open(DRIVER, "rb") as fh:
+        h.update(hashlib.sha256(fh.read()).digest())
+    cdir = os.path.join(CACHE, "fixture-" + h.hexdigest()[:32])
+    fpath = os.path.join(cdir, "poscontrol.json")
+    if not os.path.exists(fpath):
+        work = tempfile.mkdtemp(prefix="x-", dir=CACHE)
+        try:
+            fdir = os.path.join(work, "facts")
+            os.makedirs(fdir)
+            sr = _sysroot()
+            env = dict(os.environ)
+            env.update({"LD_LIBRARY_PATH": sr + "/lib", "ABSY_SYSROOT": sr, "RUSTFLAGS": "-Awarnings", "RUSTC_WRAPPER": DRIVER,
+                        "CARGO_TARGET_DIR": os.path.join(work, "target"), "ABSY_FACTS_DIR": fdir, "ABSY_CRATES": "poscontrol",
+                        "CARGO_NET_OFFLINE": "true"})
+            p = subprocess.run(["cargo", "+nightly", "check", "--offline", "--lib", "--manifest-path", os.path.join(FIXTURE, "Cargo.toml")],
+                               env=env, stdout=subprocess.PIPE, stderr=subprocess.STDOUT, text=True)
+            if p.returncode != 0 or not os.path.exists(os.path.join(fdir, "poscontrol.json")):
+                raise RuntimeError("positive-control fixture extraction failed:\n" + p.stdout[-3000:])
+            tmpc = cdir + ".tmp%d" % os.getpid()
+            shutil.rmtree(tmpc, ignore_errors=True)
+            shutil.move(fdir, tmpc)
+            try:
+                os.rename(tmpc, cdir)
+            except OSError:
+                shutil.rmtree(tmpc, ignore_errors=True)
+        finally:
+            shutil.rmtree(work, ignore_errors=True)
+    with open(fpath) as fh:
+        return {"poscontrol": json.load(fh)}
+
+
 def _prune_cache(keep=12):
     try:
         ents = [os.path.join(CACHE, d) for d in os.listdir(CACHE) if d.startswith("facts-") and ".tmp" not in d]
